@@ -35,7 +35,7 @@ def exhaustive(tier):
 def required(tier):
     return {"answers_compared": 2500, "repeated_after_state_change": 800, "cache_hits_observed": 500,
             "state_changes": 300, "distinct_states": 15, "second_registry_touches": 20,
-            "redefinition_histories": 20}
+            "redefinition_histories": 20, "keyword_activations": 50}
 
 
 NEWDEFS = ["vfu0 = 3 * meter = vf0", "vfu1 = 7 * vfu0", "vfu2 = 2 * pound * vfu1 / second ** 2",
@@ -75,7 +75,7 @@ QUESTIONS = [
     ("parse_units", "dab"), ("convert", "dab", "meter"), ("convert", "dab", "barn"), ("dim", "dab"),
 ]
 
-OPS = ["q"] * 0 + ["define", "ctx_rule_on", "ctx_redef_on", "ctx_off", "sys", "second", "q0", "q1", "q2", "q3",
+OPS = ["q"] * 0 + ["define", "ctx_rule_on", "ctx_kw_on", "ctx_redef_on", "ctx_off", "sys", "second", "q0", "q1", "q2", "q3",
                    "q4", "q5", "q6", "q7"]
 
 
@@ -206,7 +206,7 @@ class World:
             if system != "mks":
                 tw.default_system = system
             for c in stack:
-                tw.enable_contexts(c)
+                enable_token(tw, c)
             self.twins[("registry", state)] = tw
             if len([k for k in self.twins if k[0] == "registry"]) > 40:
                 # bound memory: drop the oldest twin registries (their answers stay memoised)
@@ -215,6 +215,16 @@ class World:
         a = answer(tw, self.pint, q)
         self.twins[key] = a
         return a
+
+
+def enable_token(reg, token):
+    """'sp' or 'sp|n=1.25' (keyword override for this activation)."""
+    if "|" in token:
+        name, kv = token.split("|")
+        k, v = kv.split("=")
+        reg.enable_contexts(name, **{k: float(v)})
+    else:
+        reg.enable_contexts(token)
 
 
 def run_history(ops, world, rec, rng, tag, pool=None):
@@ -228,6 +238,10 @@ def run_history(ops, world, rec, rng, tag, pool=None):
     fixed_pool = pool
     pool = rng.sample(QUESTIONS, 8)
     pool[:3] = rng.sample(QUESTIONS[-19:-4], 3)   # always some dependants of the redefined unit
+    if any(o.startswith("ctx_") for o in ops):
+        # histories that switch contexts always ask the questions those contexts answer
+        pool[3] = ("convert", "nanometer", "terahertz")
+        pool[4] = ("convert", "joule", "hertz")
     if fixed_pool:
         pool = fixed_pool
     pool[3] = rng.choice(QUESTIONS[-4:])           # and one question about the name that gets defined later
@@ -241,6 +255,16 @@ def run_history(ops, world, rec, rng, tag, pool=None):
                 ndefs += 1
                 trace.append(("define", NEWDEFS[ndefs - 1]))
                 rec.count("state_changes")
+            continue
+        if op == "ctx_kw_on":
+            # a rule context enabled WITH a keyword override (possibly nested inside a plain one):
+            # the override belongs to this activation only
+            c = rng.choice(("sp|n=1.25", "sp|n=1.5"))
+            enable_token(ureg, c)
+            stack.append(c)
+            trace.append(("enable", c))
+            rec.count("state_changes")
+            rec.count("keyword_activations")
             continue
         if op == "ctx_rule_on":
             c = rng.choice(("sp", "energy", "boltzmann"))
@@ -335,7 +359,7 @@ def run_shard(spec, rec):
     if spec["kind"] == "bfs":
         k = 0
         # each enumerated state-change prefix is followed by the full question pool, asked twice
-        alphabet = ["define", "ctx_rule_on", "ctx_redef_on", "ctx_off", "sys", "second"]
+        alphabet = ["define", "ctx_rule_on", "ctx_kw_on", "ctx_redef_on", "ctx_off", "sys", "second"]
         for L in range(1, spec["length"] + 1):
             for seq in itertools.product(alphabet, repeat=L):
                 k += 1
